@@ -208,15 +208,16 @@ def _subst(repl, caps):
 
 
 def apply_edit(text, op, pattern, repl, what, nth=None):
-    hits = find_pattern(text, pattern)
+    hits = find_pattern(text, pattern, want_caps=True)
     if nth is not None:
         if len(hits) < nth:
             raise LostAnchor('%s: pattern matched %d times (need >= %d): %r' % (what, len(hits), nth, ' '.join(pattern.split())[:80]))
-        a, b = hits[nth - 1]
+        a, b, caps = hits[nth - 1]
     elif len(hits) != 1:
         raise LostAnchor('%s: pattern matched %d times (need 1): %r' % (what, len(hits), ' '.join(pattern.split())[:80]))
     else:
-        a, b = hits[0]
+        a, b, caps = hits[0]
+    repl = _subst(repl, caps)
     if op == 'rewrite':
         return text[:a] + repl + text[b:]
     if op == 'drop':
